@@ -395,3 +395,73 @@ Proof.
     unfold item_of. rewrite (base_class_ctx fs fs' y y' H Hy). destruct Hy as (Hi & _ & _ & Ht). rewrite Hi, Ht. reflexivity. }
   apply Hgen. exact H.
 Qed.
+
+(* ---------- the literal property text ---------- *)
+Lemma not_ambiguous : forall its, kf_ambiguous its = false ->
+  forall u t1 t2, In u its -> In t1 its -> In t2 its -> is_typed u = false -> is_typed t1 = true -> is_typed t2 = true ->
+  it_kb t1 = it_kb u -> it_kb t2 = it_kb u -> it_ty t1 = it_ty t2.
+Proof.
+  intros its H u t1 t2 Hu H1 H2 Tu T1 T2 K1 K2. unfold kf_ambiguous in H.
+  destruct (oty_eqb (it_ty t1) (it_ty t2)) eqn:E; [apply oty_eqb_eq; exact E|]. exfalso.
+  assert (existsb (fun u => negb (is_typed u) && existsb (fun t1 => existsb (fun t2 =>
+      is_typed t1 && is_typed t2 && Nat.eqb (it_kb t1) (it_kb u) && Nat.eqb (it_kb t2) (it_kb u)
+      && negb (oty_eqb (it_ty t1) (it_ty t2))) its) its) its = true); [|congruence].
+  apply existsb_exists. exists u. split; [exact Hu|]. rewrite Tu. cbn.
+  apply existsb_exists. exists t1. split; [exact H1|]. apply existsb_exists. exists t2. split; [exact H2|].
+  rewrite T1, T2, K1, K2, Nat.eqb_refl, E. reflexivity.
+Qed.
+
+Lemma share_iff_agree_partial_l : forall its, kf_ambiguous its = false -> forall a b, In a its -> In b its ->
+  (same_group (group_items its) a b <-> agreeb a b = true).
+Proof.
+  intros its Hk a b Ha Hb. rewrite (grouping_spec_l its a b Ha Hb). unfold share_spec, anchor, agreeb.
+  assert (Hty : forall x, is_typed x = false -> it_ty x = None).
+  { intros x H. unfold is_typed in H. destruct (it_ty x); [discriminate | reflexivity]. }
+  assert (Hf : forall u t, In t its -> is_typed t = true -> it_kb t = it_kb u ->
+               exists s, find (fun t => is_typed t && Nat.eqb (it_kb t) (it_kb u)) its = Some s).
+  { intros u t Ht Tt Kt. destruct (find _ its) as [s|] eqn:E; [eexists; reflexivity|].
+    pose proof (find_none _ _ E t Ht) as Hn. cbn in Hn. rewrite Tt, Kt, Nat.eqb_refl in Hn. discriminate. }
+  destruct (is_typed a) eqn:Ta, (is_typed b) eqn:Tb.
+  - unfold is_typed in Ta, Tb. destruct (it_ty a), (it_ty b); try discriminate. cbn. reflexivity.
+  - (* a typed, b untyped *)
+    rewrite (Hty b Tb). assert (Hsa : exists ta, it_ty a = Some ta) by (unfold is_typed in Ta; destruct (it_ty a); [eexists; reflexivity | discriminate]).
+    destruct Hsa as (ta & Eta). rewrite Eta. rewrite andb_true_r.
+    destruct (find _ its) as [s|] eqn:E.
+    + pose proof (find_some _ _ E) as [Hs Hp]. apply andb_true_iff in Hp. destruct Hp as [Ts Ks]. apply Nat.eqb_eq in Ks.
+      rewrite andb_true_iff, !Nat.eqb_eq, oty_eqb_eq. split.
+      * intros [H1 _]. congruence.
+      * intros H. split; [congruence|]. rewrite <- Eta. apply (not_ambiguous its Hk b a s Hb Ha Hs Tb Ta Ts H Ks).
+    + split; [discriminate|]. intros H. apply Nat.eqb_eq in H. destruct (Hf b a Ha Ta H) as (s & Hs). congruence.
+  - (* a untyped, b typed *)
+    rewrite (Hty a Ta). cbn [andb]. rewrite andb_true_r.
+    destruct (find _ its) as [s|] eqn:E.
+    + pose proof (find_some _ _ E) as [Hs Hp]. apply andb_true_iff in Hp. destruct Hp as [Ts Ks]. apply Nat.eqb_eq in Ks.
+      rewrite andb_true_iff, !Nat.eqb_eq, oty_eqb_eq. split.
+      * intros [H1 _]. congruence.
+      * intros H. split; [congruence|]. apply (not_ambiguous its Hk a s b Ha Hs Hb Ta Ts Tb Ks (eq_sym H)).
+    + split; [discriminate|]. intros H. apply Nat.eqb_eq in H. destruct (Hf a b Hb Tb (eq_sym H)) as (s & Hs). congruence.
+  - (* both untyped *)
+    rewrite (Hty a Ta). cbn [andb]. rewrite andb_true_r.
+    destruct (Nat.eqb (it_kb a) (it_kb b)) eqn:Ek.
+    + apply Nat.eqb_eq in Ek. rewrite Ek. destruct (find _ its) as [s|]; [|tauto].
+      rewrite Nat.eqb_refl. cbn. split; [reflexivity|]. intros _. apply oty_eqb_eq. reflexivity.
+    + destruct (find (fun t => is_typed t && Nat.eqb (it_kb t) (it_kb a)) its) as [s|] eqn:Ea,
+               (find (fun t => is_typed t && Nat.eqb (it_kb t) (it_kb b)) its) as [t|] eqn:Eb; try tauto.
+      * pose proof (find_some _ _ Ea) as [_ Hp]. apply andb_true_iff in Hp. destruct Hp as [_ Ks]. apply Nat.eqb_eq in Ks.
+        pose proof (find_some _ _ Eb) as [_ Hq]. apply andb_true_iff in Hq. destruct Hq as [_ Kt]. apply Nat.eqb_eq in Kt.
+        rewrite Ks, Kt, Ek. cbn. tauto.
+Qed.
+
+Definition amb_t1 := {| it_id := 0; it_kb := 0; it_ty := Some 1 |}.
+Definition amb_t2 := {| it_id := 1; it_kb := 0; it_ty := Some 3 |}.
+Definition amb_u := {| it_id := 2; it_kb := 0; it_ty := None |}.
+Lemma share_iff_agree_refuted_l :
+  kf_ambiguous [amb_t1; amb_t2; amb_u] = true /\ agreeb amb_u amb_t2 = true /\
+  ~ same_group (group_items [amb_t1; amb_t2; amb_u]) amb_u amb_t2 /\
+  (* and with the other iteration order it is the other way round *)
+  same_group (group_items [amb_t2; amb_t1; amb_u]) amb_u amb_t2.
+Proof.
+  split; [reflexivity | split; [reflexivity | split]].
+  - intros H. apply (grouping_spec_l [amb_t1; amb_t2; amb_u] amb_u amb_t2) in H; [discriminate H | cbn; auto | cbn; auto].
+  - apply (grouping_spec_l [amb_t2; amb_t1; amb_u] amb_u amb_t2); [cbn; auto | cbn; auto | reflexivity].
+Qed.
